@@ -90,7 +90,7 @@ def build_harness(variant, name):
         headers.append(cfg)
     extra = {
         "h_conv": ["ref_conv.c", "ref_g711.c", "ref_adpcm.c", "h_c20.c"],
-        "h_rdwr": [],
+        "h_rdwr": ["ref_g711.c"],
     }.get(name, [])
     srcs = COMMON_SRC + extra + [name + ".c"]
     objs = []
